@@ -205,8 +205,18 @@ def global_variants(ctx: Ctx):
     yield {K_A: True, "enable_error_code": [CODES[0]], "disable_error_code": rng.choice([[], [CODES[0]], [CODES[1]]])}
 
 
+def corpus() -> dict:
+    import json, os
+    from harness.vlib.core import VERIF
+    path = os.path.join(VERIF, "corpus", "c17", "cases.json")
+    return json.load(open(path)) if os.path.exists(path) else {}
+
+
 def generate(ctx: Ctx):
-    """Yield (glob, secs, mods, kind).  Exhaustive over ordered tuples of ≤ 3 distinct patterns of the pool."""
+    """Yield (glob, secs, mods, kind).  Corpus first, then exhaustive over ordered tuples of ≤ 3 distinct
+    patterns of the pool."""
+    for c in corpus().get("resolution", []):
+        yield c["global"], [(p, ch) for p, ch in c["sections"]], all_modules(3) + ["a.*", "a.b.*", "a.c.*", "a.b.c.a"], "corpus"
     pool = pattern_pool(ctx)
     shape = dict(pool)
     pats = [p for p, _ in pool]
